@@ -15,6 +15,7 @@ from . import c17
 
 ID = "C10"
 LEVEL = "exploration"
+DEADLINE = {"quick": 900}  # a hang inside C code (regular expressions) is only seen when this runs out
 STUCK_S = 200  # a single case may legitimately take this long (seconds) before the runner calls it stuck
 WORKERS = 3
 RULE = (
@@ -23,7 +24,7 @@ RULE = (
     "and of the repository's examples, (c) dialect-invalid Python from a list of unsupported constructs, recursion, "
     "undefined names, wrong arity, Lua-looking prefixes, (d) constexpr bodies that raise, divide by zero, print, return "
     "non-JSON values, recurse deeply, call sys.exit, never terminate, mention open/eval/exec, (e) options as dataclass "
-    "and as dict over all 8 booleans. Oracle: the call returns within a generous cap (20 s, + 1.5 s per constexpr call; "
+    "and as dict over all 8 booleans. Oracle: the call returns within a generous cap (20 s of the process's own CPU time and 120 s of wall-clock time, + 1.5 s / 9 s per constexpr call; "
     "a cap hit is a violation only if it reproduces), raises nothing, returns a dict with exactly one of code/error; "
     "code comes with non-negative consistent statistics (C17 recount), error with a non-empty description and, if a "
     "line is given, a position inside the submitted text; afterwards the process has no child process left. "
@@ -33,7 +34,7 @@ RULE = (
 ASSUMPTIONS = [
     "runs with the real astroid inference (no harness speed instrumentation)",
     "positions: 1-based or 0-based line and column conventions are both admitted, line <= number of lines + 1",
-    "wall-clock caps are generous and a single cap hit is re-tried twice before it counts",
+    "the caps are generous (CPU time of the calling process, so that a loaded machine does not matter; wall-clock time for calls that wait without computing) and a single cap hit is re-tried twice before it counts",
 ]
 os.environ.setdefault("PV_FAST_INFER", "0")
 
@@ -44,6 +45,9 @@ def nshards(tier):
 
 class Hang(BaseException):
     pass
+
+
+WALL_FACTOR = 6
 
 
 def _alarm(signum, frame):
@@ -62,8 +66,12 @@ def children():
 
 def call(src, opts, cap):
     comp = repo.load()
+    # two limits: `cap` seconds of this process's own CPU time (what the call costs, whatever else the machine is
+    # doing) and WALL_FACTOR x cap seconds of wall-clock time (a call that waits for ever without computing)
     signal.signal(signal.SIGALRM, _alarm)
-    signal.setitimer(signal.ITIMER_REAL, cap)
+    signal.signal(signal.SIGPROF, _alarm)
+    signal.setitimer(signal.ITIMER_PROF, cap)
+    signal.setitimer(signal.ITIMER_REAL, cap * WALL_FACTOR)
     t0 = time.time()
     try:
         return "returned", comp.compile_code(src, opts), time.time() - t0
@@ -72,6 +80,7 @@ def call(src, opts, cap):
     except BaseException as e:  # noqa
         return "raised", e, time.time() - t0
     finally:
+        signal.setitimer(signal.ITIMER_PROF, 0)
         signal.setitimer(signal.ITIMER_REAL, 0)
 
 
